@@ -591,10 +591,6 @@ func runCheck(prop, tier string) int {
 				}
 			}
 		}
-		if stMismatch > 0 {
-			fmt.Println("HARNESS-TROUBLE: determinism self-test failed")
-			return 2
-		}
 	}
 
 	// violations: one per (oracle, sig); shrink + confirm in fresh processes
@@ -634,19 +630,34 @@ func runCheck(prop, tier string) int {
 		os.WriteFile(raw, b, 0o644)
 		final := raw
 		if fv.v.Oracle != "process-death" {
-			cmd := exec.Command(self, "shrink", raw, min)
-			if outb, err := runWithTimeout(cmd, 10*time.Minute); err == nil {
-				final = min
-				os.Remove(raw)
-			} else {
-				fmt.Println("shrink failed, keeping unminimised replay:", err, tail(string(outb), 300))
+			// oracles whose detector samples (the Go race detector's shadow memory is bounded and evicts pseudo-randomly)
+			// are confirmed by up to 8 fresh-process replays of the same deterministic schedule and are not shrunk
+			sampled := chk.SampledOracles[fv.v.Oracle]
+			if !sampled {
+				cmd := exec.Command(self, "shrink", raw, min)
+				if outb, err := runWithTimeout(cmd, 10*time.Minute); err == nil {
+					final = min
+					os.Remove(raw)
+				} else {
+					fmt.Println("shrink failed, keeping unminimised replay:", err, tail(string(outb), 300))
+				}
 			}
-			// confirm in a fresh process
-			cmd = exec.Command(self, "replay", final)
-			outb, err := runWithTimeout(cmd, 10*time.Minute)
-			ee, isExit := err.(*exec.ExitError)
-			if !(isExit && ee.ExitCode() == 1) {
-				fmt.Printf("HARNESS-TROUBLE: violation did not reproduce from %s in a fresh process (%v)\n%s\n", final, err, tail(string(outb), 800))
+			tries := 1
+			if sampled {
+				tries = 8
+			}
+			confirmed := false
+			var lastOut []byte
+			var lastErr error
+			for t := 0; t < tries && !confirmed; t++ {
+				cmd := exec.Command(self, "replay", final)
+				outb, err := runWithTimeout(cmd, 10*time.Minute)
+				lastOut, lastErr = outb, err
+				ee, isExit := err.(*exec.ExitError)
+				confirmed = isExit && ee.ExitCode() == 1
+			}
+			if !confirmed {
+				fmt.Printf("HARNESS-TROUBLE: violation did not reproduce from %s in %d fresh process(es) (%v)\n%s\n", final, tries, lastErr, tail(string(lastOut), 800))
 				return 2
 			}
 		}
@@ -656,6 +667,10 @@ func runCheck(prop, tier string) int {
 		exit = 1
 	}
 
+	if exit == 0 && stMismatch > 0 {
+		fmt.Println("HARNESS-TROUBLE: determinism self-test failed")
+		return 2
+	}
 	// reach probes
 	if tier == "thorough" && exit == 0 {
 		for _, p := range chk.RequiredProbes {
